@@ -193,7 +193,9 @@ func runC15(e *Env) {
 		if !ok {
 			continue
 		}
-		if call != parses[0] && call != loads[0] && !isProcessStart(call) {
+		// (the failure of the target itself - cmd.Run's error - is outside the property: the filter was installed and the
+		// target did run; whether the command then exits 1 or forwards the target's status is the command's business)
+		if call != parses[0] && call != loads[0] {
 			continue
 		}
 		errv := flow.ErrResult(call)
@@ -283,7 +285,7 @@ func runC15(e *Env) {
 			checkExitRegion(e, p, "sandbox.main/no-arguments", b, fail)
 		}
 	}
-	r.Floor("E3.exit(failure edges)", len(fes)+nArgs+nPathDecided, 4)
+	r.Floor("E3.exit(failure edges)", len(fes)+nArgs+nPathDecided, 3)
 
 	// policy flow
 	res := origin.NewResolver()
